@@ -117,6 +117,7 @@ type genState struct {
 	r        *rand.Rand
 	nextCid  int
 	live     []int       // cids used with a block by requests still in progress
+	old      []int       // cids of blocks sent by requests that have finished since
 	sizeOf   map[int]int // cid -> size
 	finished map[int]bool
 	fails    int
@@ -131,6 +132,13 @@ func (g *genState) items(req int) []string {
 			var c int
 			if len(g.live) > 0 && g.r.Intn(5) == 0 {
 				c = g.live[g.r.Intn(len(g.live))]
+			} else if len(g.old) > 0 && g.r.Intn(6) == 0 {
+				// a block of a finished request: the link tracker forgot it, so it is put on the wire
+				// again -- possibly into a message that already carries it (counted twice, carried once)
+				c = g.old[g.r.Intn(len(g.old))]
+				if !g.finished[req] {
+					g.live = append(g.live, c)
+				}
 			} else {
 				c = g.nextCid
 				g.nextCid++
@@ -156,6 +164,7 @@ func (g *genState) items(req int) []string {
 				out = append(out, "x31")
 			}
 			g.finished[req] = true
+			g.old = append(g.old, g.live...)
 			g.live = nil
 		}
 	}
@@ -268,6 +277,39 @@ func genEmptyMid(r *rand.Rand, w *bufio.Writer, id string) {
 	fmt.Fprintf(w, "finish\n")
 }
 
+// genDoubleBlock: the SAME block queued twice into one pending message under two reservations (the
+// first request finished, so the link tracker lets the second one -- another request, or the same
+// request again -- send it again), then an earlier message of those requests fails and the pending
+// message is scrubbed (of both, or of one of them), or is sent.  Every reserved byte must come back.
+func genDoubleBlock(r *rand.Rand, w *bufio.Writer, id string) {
+	sz := []int{1000, 100000, 200000}[r.Intn(3)]
+	second := []int{1, 1, 0}[r.Intn(3)] // the request that queues the block the second time
+	fmt.Fprintf(w, "case %s\ncfg 1073741824 1073741824 1 0 1 2 3\n", id)
+	fmt.Fprintf(w, "tx 2 b9:100\n")
+	switch r.Intn(3) {
+	case 0: // the message that will fail carries both requests
+		fmt.Fprintf(w, "tx 0 b1:1000\ntx 1 b2:1000\n")
+	case 1: // only the first
+		fmt.Fprintf(w, "tx 0 b1:1000\n")
+	default: // only the second
+		fmt.Fprintf(w, "tx %d b2:1000\n", second)
+	}
+	fmt.Fprintf(w, "ack ok n\nack ok n\n") // message of request 2 sent, the next one is in SendMsg
+	fmt.Fprintf(w, "tx 0 b5:%d f\ntx %d b5:%d\n", sz, second, sz)
+	if r.Intn(3) == 0 {
+		fmt.Fprintf(w, "tx 3 b6:1000 b5:%d\n", sz) // and a third time, by a bystander
+	}
+	switch r.Intn(4) {
+	case 0, 1: // the message in flight fails: retries exhausted
+		fmt.Fprintf(w, "ack fail n\nack ok n\nack ok n\n")
+	case 2: // it is sent
+		fmt.Fprintf(w, "ack ok n\n")
+	default: // shutdown
+		fmt.Fprintf(w, "shutdown\nack fail d\nack ok d\n")
+	}
+	fmt.Fprintf(w, "finish\n")
+}
+
 func Gen(seed int64, n int, tier string, w *bufio.Writer) {
 	r := rand.New(rand.NewSource(seed))
 	for i := 0; i < n; i++ {
@@ -275,6 +317,9 @@ func Gen(seed int64, n int, tier string, w *bufio.Writer) {
 	}
 	for i := 0; i < 12+n/40; i++ {
 		genEmptyMid(r, w, fmt.Sprintf("em%d", i))
+	}
+	for i := 0; i < 16+n/40; i++ {
+		genDoubleBlock(r, w, fmt.Sprintf("db%d", i))
 	}
 	if tier == "thorough" {
 		bases := [][]string{
@@ -517,6 +562,7 @@ type env struct {
 	granted     uint64
 
 	sentOrder []int // builder indexes in first-SendMsg order
+	doubled     bool // some block entered one message twice
 	overlap     bool // another queue of the same peer used the allocator
 	wiped       bool // … and its exit wiped this queue's reservations
 	otherHeld   uint64
@@ -656,7 +702,10 @@ func (e *env) built(tx *txRec, b *messagequeue.Builder, fn func(*messagequeue.Bu
 		}
 		for _, c := range tx.sentCids {
 			if e.bcids[idx][c] {
-				e.exact = false // the same block entered one message twice: it is accounted twice, carried once
+				// the same block entered one message twice: it is accounted twice but carried once, and any
+				// scrub of that message recounts it once -- only the totals at rest are comparable
+				e.exact = false
+				e.doubled = true
 			}
 			e.bcids[idx][c] = true
 		}
@@ -1084,7 +1133,7 @@ func (e *env) checkLedger(res *result) {
 	if e.exact && got != held {
 		res.fail("ledger", "AllocatedForPeer = %d but unsent reserved data = %d bytes (reserved %d, released %d)", got, held, e.granted, e.released)
 	}
-	if !e.exact && got < held {
+	if !e.exact && !e.doubled && got < held {
 		res.fail("ledger", "AllocatedForPeer = %d is less than the unsent reserved data, %d bytes (reserved %d, released %d)", got, held, e.granted, e.released)
 	}
 }
